@@ -502,6 +502,17 @@ func (ex *Exec) builtin(fr *Frame, st *State, b *ssa.Builtin, c *ssa.CallCommon,
 		case *types.Map:
 			l := ex.mapLen(st, a)
 			ex.assume(st, BVCmp("bvsle", BVI(0, 64), l))
+			// the length is zero exactly when no key is present
+			{
+				mi := mapKeys(a.T)
+				var bs []*Term
+				for i, srt := range mi.ks {
+					bs = append(bs, BoundVar(fmt.Sprintf("lk%d", i), srt))
+				}
+				dom := Select(st.get(mi.dom, mi.domSort()), a.Term())
+				ex.assume(st, Implies(Eq(l, BVI(0, 64)), Forall(bs, Not(selectN(dom, bs)))))
+				ex.assume(st, Implies(Not(Eq(l, BVI(0, 64))), Exists(bs, selectN(dom, bs))))
+			}
 			return []Val{scalar(rtype, Ite(Eq(a.Term(), IntC(0)), BVI(0, 64), l))}
 		case *types.Array:
 			return []Val{scalar(rtype, BVI(u.Len(), 64))}
@@ -740,6 +751,15 @@ func (ex *Exec) typeKeys(env *Env, m *ModTarget) []keySort {
 
 func (ex *Exec) memKeys(env *Env, m *ModTarget) []keySort {
 	t := ex.ld.resolveType(env.pkg, m.TypeName)
+	if _, isMap := t.Underlying().(*types.Map); isMap {
+		// every map of this type: domain, length and values
+		mi := mapKeys(t)
+		out := []keySort{{mi.dom, mi.domSort()}, {mi.ln, ArrS(IntS, BVS(64))}}
+		for j, k := range mi.vals {
+			out = append(out, keySort{k, mi.valSort(j)})
+		}
+		return out
+	}
 	lo := layoutOf(t)
 	var out []keySort
 	for j, lf := range lo.Leaves {
